@@ -314,6 +314,13 @@ def r12(ctx: Ctx) -> RuleReport:
                     for kw in call.keywords:
                         if kw.arg == 'model':
                             passed = kw.value
+                        if kw.arg is None and isinstance(kw.value, ast.Name):
+                            # **table with table = {'model': model, ...} written once as a dict display
+                            dv = [v for v in ctx.cg.local_assigns(fi).get(kw.value.id, []) if isinstance(v, ast.AST)]
+                            if len(dv) == 1 and isinstance(dv[0], ast.Dict):
+                                for k_, v_ in zip(dv[0].keys, dv[0].values):
+                                    if isinstance(k_, ast.Constant) and k_.value == 'model':
+                                        passed = v_
                     key = f'{fi.module.name}:{fi.qualname}: {norm(call)[:90]}'
                     if passed is None:
                         star = [norm(k.value) for k in call.keywords if k.arg is None]
@@ -1079,6 +1086,27 @@ def r82(ctx: Ctx) -> RuleReport:
         if not names:
             rep.violation(key, fi.loc(st.ast), f'the key {norm(keyx)} is the same for every triple: each entry overwrites the one before')
             continue
+        # for key, message in _error_entries(errors): the key is made by a generator helper - is it made anew for every entry of the report there?
+        if isinstance(keyx, ast.Name) and isinstance(outer.iter, ast.Call) and isinstance(outer.iter.func, ast.Name) and outer.iter.func.id in fi.module.functions \
+                and isinstance(outer.target, ast.Tuple) and keyx.id in {norm(e) for e in outer.target.elts}:
+            G = fi.module.functions[outer.iter.func.id]
+            pos_ = [norm(e) for e in outer.target.elts].index(keyx.id)
+            ys = [y for y in walk_local(G.node) if isinstance(y, ast.Yield) and isinstance(y.value, ast.Tuple) and len(y.value.elts) == len(outer.target.elts)]
+            verdict = 'undecided'
+            why = f'the key comes from {G.qualname}'
+            if ys and all(isinstance(y.value.elts[pos_], ast.Name) for y in ys):
+                kn = ys[0].value.elts[pos_].id
+                pmg = ctx.repo.parent_map(G.node)
+                kdefs = [d for d in walk_local(G.node) if isinstance(d, ast.Assign) and len(d.targets) == 1 and norm(d.targets[0]) == kn]
+                if len(kdefs) == 1:
+                    lp_ = pmg.get(id(kdefs[0]))
+                    reads = {x.id for x in ast.walk(kdefs[0].value) if isinstance(x, ast.Name)}
+                    if isinstance(lp_, ast.For) and isinstance(lp_.iter, ast.Call) and norm(lp_.iter.func) == 'enumerate' and isinstance(lp_.target, ast.Tuple) \
+                            and isinstance(lp_.target.elts[0], ast.Name) and reads == {lp_.target.elts[0].id} and lp_.iter.args \
+                            and any(isinstance(x, ast.Name) and x.id in G.params for x in ast.walk(lp_.iter.args[0])):
+                        verdict, why = 'ok', f'{G.qualname}: `{norm(kdefs[0])}` once per entry of enumerate({norm(lp_.iter.args[0])[:30]})'
+            rep.add(key, fi.loc(st.ast), verdict, why)
+            continue
         # what is stored names the triple (through the context text built from it) and the message
         tvars = {x.id for x in ast.walk(outer.target) if isinstance(x, ast.Name)}
         derived = set(tvars)
@@ -1379,6 +1407,13 @@ def r103(ctx: Ctx) -> RuleReport:
     inner = [f for f in ctx.repo.all_functions() if f.parent is of]
     sa = inner[0] if inner else of
     if not inner:
+        # return <Class>(key_funcs) with a __call__ method: that method is the type function
+        for n in walk_local(of.node):
+            if isinstance(n, ast.Return) and isinstance(n.value, ast.Call) and isinstance(n.value.func, ast.Name) and n.value.func.id in of.module.classes:
+                cm = of.module.classes[n.value.func.id].find_method('__call__')
+                if cm is not None:
+                    sa = cm
+    if not inner:
         # return functools.partial(<module-level function>, key_funcs=key_funcs): that function is the type function
         for n in walk_local(of.node):
             if isinstance(n, ast.Return) and isinstance(n.value, ast.Call) and norm(n.value.func) in ('functools.partial', 'partial') and n.value.args \
@@ -1550,9 +1585,24 @@ def r105(ctx: Ctx) -> RuleReport:
                 'file': lambda k: k.startswith('expr:Model(') and 'json.load' in k and p_file in k, 'default': lambda k: k == 'expr:Model()'}
         expected = {'amr': {p_amr: True}, 'noop': {p_amr: False, p_noop: True}, 'file': {p_amr: False, p_noop: False, p_file: True},
                     'default': {p_amr: False, p_noop: False, p_file: False}}
-        seen = set()
+        # model = Model(**definition) with definition = json.load(file) if file else {}: two cases written as one statement
+        binds2 = []
         for n, kind in binds:
-            fx = fx_of(gm, n)
+            star = None
+            if kind.startswith('expr:Model(**') and isinstance(getattr(n, 'value', None), ast.Call) and n.value.keywords and n.value.keywords[0].arg is None \
+                    and isinstance(n.value.keywords[0].value, ast.Name):
+                dv = [v for v in ctx.cg.local_assigns(gm).get(n.value.keywords[0].value.id, []) if isinstance(v, ast.AST)]
+                if len(dv) == 1 and isinstance(dv[0], ast.IfExp) and norm(dv[0].test) == p_file and 'json.load' in norm(dv[0].body) and p_file in norm(dv[0].body) \
+                        and isinstance(dv[0].orelse, ast.Dict) and not dv[0].orelse.keys:
+                    star = dv[0]
+            if star is not None:
+                binds2.append((n, f'expr:Model(**json.load({p_file}))', {p_file: True}))
+                binds2.append((n, 'expr:Model()', {p_file: False}))
+            else:
+                binds2.append((n, kind, {}))
+        seen = set()
+        for n, kind, extra in binds2:
+            fx = fx_of(gm, n) | {(q_, v_) for q_, v_ in extra.items()}
             case = next((c_ for c_ in ('amr', 'noop', 'file', 'default') if want[c_](kind)), None)
             key = f'{gm.fq}: `{norm(n)[:50]}` is chosen in the documented case'
             if case is None:
